@@ -413,6 +413,22 @@ def run(ctx):
         ctx.count('invvar-none:checked')
         if a != b:
             ctx.violate('iterfit:invvar-none', 'iterfit(invvar=None) differs from iterfit(invvar=1/variance)', c)
+    # the rejection step of the documented procedure on its own ("reject points BEYOND lower / upper sigma": strictly), on the
+    # exact grid of C17's check where residuals hit the limits exactly - the rule iterfit applies in every pass
+    from harness.props import c17 as _c17
+    sub = [c for c in _c17._gen_rej(ctx) if c['kind'] == 'grid' and c['smode'] == 'invvar' and c.get('maxdev') is None
+           and not c['sticky'] and c['grow'] == 0][:ctx.n(150, 2000)]
+    for L in (1.0, 2.0, 4.0):
+        for U in (1.0, 2.0, 4.0):
+            for iv_ in (1.0, 4.0, 0.25, 16.0):
+                u = 1.0 / math.sqrt(iv_)
+                model_ = [0.5, -1.25, 2.0, 0.0, 3.5, -0.75]
+                diffs = [-L * u, U * u, -2 * L * u, 2 * U * u, 0.0, -0.5 * L * u]       # exactly on the limits, beyond, inside
+                sub.append({'stream': 'rej', 'kind': 'grid', 'shape': [6], 'data': [m_ + d_ for m_, d_ in zip(model_, diffs)], 'model': model_,
+                            'outmask': None, 'inmask': None, 'smode': 'invvar', 's': [iv_] * 6, 'lower': L, 'upper': U, 'maxdev': None,
+                            'sticky': False, 'grow': 0})
+    _c17._reject(ctx, sub)
+    ctx.count('reject-rule:exact-grid-cases', len(sub))
     if ctx.disagreements:
         n0 = len(cases)
         more = [gen_case(rng) for _ in range(60)]
